@@ -190,6 +190,8 @@ class FEM(om.ImplicitComponent):
         idx = np.tile(np.tile(np.arange(12), 12), ny - 1) + np.repeat(6 * np.arange(ny - 1), 144)
         J["disp_aug", "local_stiff_transformed"] = np.tile(x[idx], vec_size)
 
+        # re-assemble so that k_data belongs to the current inputs (the last residual evaluation may have been elsewhere)
+        self.assemble_CSC_K(inputs)
         J["disp_aug", "disp_aug"] = np.tile(self.k_data, vec_size)
 
     def solve_linear(self, d_outputs, d_residuals, mode):
